@@ -252,6 +252,15 @@ def run(ck: Check):
         if ok and len(xs) <= 220 and not special:
             cases.append((DET, cfg, xs, None))
             impl.append(trace)
+    # min_num_instances raised / lowered through the configuration's setter shortly before a level change:
+    # raised -> no cut while the window is narrower than the NEW value; lowered -> the due checks run (no exceeding split survives)
+    for lo, hi, direction in ((5, 150, "raised"), (300, 5, "lowered"), (10, 90, "raised"), (200, 3, "lowered")):
+        cfgs = dict(clock=rng.choice([1, 2, 4]), delta=0.002, m=rng.choice([2, 5]), min_window_size=rng.choice([1, 3]), min_num_instances=lo)
+        k = rng.choice([40, 56])
+        xs = [abs(rng.gauss(0.2, 0.03)) for _ in range(k)] + [("set", "min_num_instances", hi)] + [abs(rng.gauss(0.2, 0.03)) for _ in range(16)] + [abs(rng.gauss(0.9, 0.03)) for _ in range(60)]
+        trace, ok = monitor(ck, cfgs, xs)
+        ck.case(dict(config=cfgs, kind="min-setter-" + direction, n=len(xs)), nontrivial=any(t[0] for t in trace), key=repr(("minset", cfgs, direction, xs[:4])))
+        ck.count("min_setter_histories")
     # a very long window (rows 0..16 in use, sizes up to 2^16): width / total / variance against prefix sums
     import numpy as _np
 
